@@ -197,13 +197,63 @@ Print Assumptions C06_spec_prop_filter.
 
 (** ** The oracle's verdict functions *)
 
-(** Agreement of the implementation with the model entails the specification. *)
+(** The specification the oracle applies is three-valued ([rfc3_comp]): where a time
+    range meets a component that is not a VEVENT the statement says nothing, the
+    value is [U3], combined upwards by Kleene's conjunction and disjunction; a
+    boolean verdict is acceptable iff [admits].  The strict boolean specification
+    [rfc4791_comp] (which also records the code's "false" there) is one of the
+    readings it admits, *)
+Theorem C06_relaxed_admits_strict : forall f c, admits (rfc3_comp f c) (rfc4791_comp f c) = true.
+Proof. exact rfc3_admits. Qed.
+Print Assumptions C06_relaxed_admits_strict.
+
+(** and where the time ranges of the query meet events only nothing is relaxed. *)
+Theorem C06_relaxed_exact_on_events : forall f c b,
+  events_only f c -> admits (rfc3_comp f c) b = Bool.eqb b (rfc4791_comp f c).
+Proof. exact relaxed_is_strict_on_events. Qed.
+Print Assumptions C06_relaxed_exact_on_events.
+
+(** Agreement of the implementation with the model entails the strict specification, *)
+Theorem C06_agree_implies_strict_spec : forall f o ob,
+  match_agrees f o ob = true -> match_spec_strict f o ob = true.
+Proof. exact match_agree_spec_ok. Qed.
+Print Assumptions C06_agree_implies_strict_spec.
+
+Theorem C06_filter_agree_implies_strict_spec : forall q os ob,
+  filter_agrees q os ob = true -> filter_spec_strict q os ob = true.
+Proof. exact filter_agree_spec_ok. Qed.
+Print Assumptions C06_filter_agree_implies_strict_spec.
+
+(** the strict one entails the relaxed one, *)
+Theorem C06_strict_implies_relaxed : forall f o ob,
+  match_spec_strict f o ob = true -> match_spec_ok f o ob = true.
+Proof. exact match_strict_relaxed. Qed.
+Print Assumptions C06_strict_implies_relaxed.
+
+Theorem C06_filter_strict_implies_relaxed : forall q os ob,
+  filter_spec_strict q os ob = true -> filter_spec_ok q os ob = true.
+Proof. exact filter_strict_relaxed. Qed.
+Print Assumptions C06_filter_strict_implies_relaxed.
+
+(** hence agreement with the model entails the specification the oracle applies. *)
 Theorem C06_agree_implies_spec_ok : forall f o ob,
   match_agrees f o ob = true -> match_spec_ok f o ob = true.
-Proof. exact match_agree_spec_ok. Qed.
+Proof. exact match_agree_relaxed. Qed.
 Print Assumptions C06_agree_implies_spec_ok.
 
 Theorem C06_filter_agree_implies_spec_ok : forall q os ob,
   filter_agrees q os ob = true -> filter_spec_ok q os ob = true.
-Proof. exact filter_agree_spec_ok. Qed.
+Proof. exact filter_agree_relaxed. Qed.
 Print Assumptions C06_filter_agree_implies_spec_ok.
+
+(** The model of the unchanged code meets the relaxed specification on every input
+    ([Err 0] is the model's "the oracle data do not tell", never a Go outcome). *)
+Theorem C06_model_meets_relaxed_spec : forall f o,
+  match_top f o <> Err 0 -> match_spec_ok f o (mobs_of_res (match_top f o)) = true.
+Proof. exact model_meets_relaxed. Qed.
+Print Assumptions C06_model_meets_relaxed_spec.
+
+Theorem C06_filter_model_meets_relaxed_spec : forall q os,
+  filter_objs q os <> Err 0 -> filter_spec_ok q os (fobs_of_res (filter_objs q os)) = true.
+Proof. exact filter_model_meets_relaxed. Qed.
+Print Assumptions C06_filter_model_meets_relaxed_spec.
